@@ -50,6 +50,7 @@ import (
 	"math"
 	"regexp"
 	"sort"
+	"strings"
 	"sync"
 
 	"github.com/google/licenseclassifier/stringclassifier/internal/pq"
@@ -112,7 +113,6 @@ func New(threshold float64, funcs ...NormalizeFunc) *Classifier {
 type knownValue struct {
 	key             string
 	normalizedValue string
-	reValue         *regexp.Regexp
 	set             *searchset.SearchSet
 }
 
@@ -128,8 +128,6 @@ func (c *Classifier) AddValue(key, value string) error {
 	c.values[key] = &knownValue{
 		key:             key,
 		normalizedValue: norm,
-		// The value is matched literally: quote it, it may hold metacharacters.
-		reValue: regexp.MustCompile(regexp.QuoteMeta(norm)),
 	}
 	return nil
 }
@@ -147,7 +145,6 @@ func (c *Classifier) AddPrecomputedValue(key, value string, set *searchset.Searc
 	c.values[key] = &knownValue{
 		key:             key,
 		normalizedValue: value,
-		reValue:         regexp.MustCompile(regexp.QuoteMeta(value)),
 		set:             set,
 	}
 	return nil
@@ -361,7 +358,7 @@ func newMatcher(unknown string, threshold float64) *matcher {
 // are the best matches.
 func (m *matcher) findMatches(known *knownValue) {
 	var mrs []searchset.MatchRanges
-	if all := known.reValue.FindAllStringIndex(m.normUnknown, -1); all != nil {
+	if all := allIndexes(m.normUnknown, known.normalizedValue); all != nil {
 		// We found exact matches. Just use those!
 		for _, a := range all {
 			var start, end int
@@ -408,6 +405,26 @@ func (m *matcher) findMatches(known *knownValue) {
 		}(mr)
 	}
 	wg.Wait()
+}
+
+// allIndexes returns the [start, end) byte ranges of the non-overlapping
+// occurrences of sub in s. The known values are plain text, possibly with
+// bytes that are not valid UTF-8, so they are searched literally rather than
+// as a regular expression.
+func allIndexes(s, sub string) [][]int {
+	if sub == "" {
+		return nil
+	}
+	var all [][]int
+	for from := 0; ; {
+		i := strings.Index(s[from:], sub)
+		if i < 0 {
+			break
+		}
+		all = append(all, []int{from + i, from + i + len(sub)})
+		from += i + len(sub)
+	}
+	return all
 }
 
 // withinConfidenceThreshold returns the Confidence we have in the potential
